@@ -21,9 +21,9 @@ PROPERTY_FILE = "C24/Property.v"
 RUN_IMPORTS = "From TV Require Import C24.Model C24.Run."
 RUN_FN = "run_case"
 CHECK_FN = "check_case"
-INPUT_TYPE = "req"
+INPUT_TYPE = "(option str * req)"
 
-METHODS = ["GET", "HEAD", "OPTIONS", "POST", "PUT", "DELETE", "PATCH"]
+DEFAULT_SUP = ["GET", "HEAD", "POST", "DELETE", "PATCH", "PUT", "OPTIONS"]      # RequestHandler.SUPPORTED_METHODS
 SAFE = ("GET", "HEAD", "OPTIONS")
 
 # ---------------------------------------------------------------- implementation runner
@@ -100,30 +100,49 @@ def _setup():
     for n in ("tornado.access", "tornado.general", "tornado.application"):
         logging.getLogger(n).setLevel(logging.CRITICAL + 1)
 
-    class H(web.RequestHandler):
-        def _go(self):
-            _rec["ran"] += 1
-            t = self.xsrf_token
-            _rec["token"] = t
-            self.write(t)
-
-        get = head = options = post = put = delete = patch = _go
+    if list(web.RequestHandler.SUPPORTED_METHODS) != DEFAULT_SUP:
+        raise AssertionError("RequestHandler.SUPPORTED_METHODS changed: %r" % (web.RequestHandler.SUPPORTED_METHODS,))
 
     web.os = _Shim(os, urandom=_urandom)
     web.time = _Shim(time, time=_time)
     _state["web"] = web
-    _state["H"] = H
+    _state["H"] = {}
     _state["apps"] = {}
     _state["srv"] = {}
     _state["loop"] = asyncio.new_event_loop()
     return _state
 
 
-def _app(on, ov):
+def sup_of(case):
+    return DEFAULT_SUP if case.get("sup") is None else case["sup"]
+
+
+def _handler(sup):
+    """a handler class that declares exactly the verbs `sup` (the documented SUPPORTED_METHODS mechanism)
+    and returns self.xsrf_token from each of them"""
     st = _setup()
-    k = (on, ov)
+    key = tuple(sup)
+    if key not in st["H"]:
+        web = st["web"]
+
+        def _go(self):
+            _rec["ran"] += 1
+            t = self.xsrf_token
+            _rec["token"] = t
+            self.write(t)
+
+        H = type("H", (web.RequestHandler,), {"SUPPORTED_METHODS": tuple(sup)})
+        for m in sup:
+            setattr(H, m.lower(), _go)
+        st["H"][key] = H
+    return st["H"][key]
+
+
+def _app(on, ov, sup):
+    st = _setup()
+    k = (on, ov, tuple(sup))
     if k not in st["apps"]:
-        st["apps"][k] = st["web"].Application([(r"/", st["H"])], xsrf_cookies=on, xsrf_cookie_version=ov)
+        st["apps"][k] = st["web"].Application([(r"/", _handler(sup))], xsrf_cookies=on, xsrf_cookie_version=ov)
     return st["apps"][k]
 
 
@@ -177,22 +196,25 @@ def run_direct(case):
         h.add("X-Xsrftoken", case["hx"])
     if case["hc"] is not None:
         h.add("X-Csrftoken", case["hc"])
+    if case.get("chdr") is not None:
+        h.add("Cookie", case["chdr"])                # the real HTTPServerRequest.cookies / parse_cookie run on it
     uri, body = _uri_body(case)
     if body:
         h.add("Content-Type", "application/x-www-form-urlencoded")
     conn = _Conn()
     req = httputil.HTTPServerRequest(method=case["m"], uri=uri, version="HTTP/1.1", headers=h, body=body,
                                      connection=conn, host="localhost")
-    jar = http.cookies.SimpleCookie()
-    if case["cookie"] is not None:
-        jar["_xsrf"] = case["cookie"]          # what HTTPServerRequest.cookies does with parse_cookie's result
-        if jar["_xsrf"].value != case["cookie"]:
-            return G.Tag("CookieJarAltered")
-    req._cookies = jar
+    if case.get("chdr") is None:
+        jar = http.cookies.SimpleCookie()
+        if case["cookie"] is not None:
+            jar["_xsrf"] = case["cookie"]          # what HTTPServerRequest.cookies does with parse_cookie's result
+            if jar["_xsrf"].value != case["cookie"]:
+                return G.Tag("CookieJarAltered")
+        req._cookies = jar
     _arm(case)
 
     async def go():
-        _app(case["on"], case["ov"])(req)
+        _app(case["on"], case["ov"], sup_of(case))(req)
         for _ in range(50):
             if conn.finished:
                 break
@@ -222,8 +244,13 @@ def cookie_wire_safe(v):
     return not (len(v) >= 2 and v[0] == '"' and v[-1] == '"')
 
 
+_TOKEN = re.compile(r"[!#$%&'*+\-.^_`|~0-9A-Za-z]+")
+
+
 def wire_safe(case):
-    return (cookie_wire_safe(case["cookie"]) and header_ok(case["hx"]) and header_ok(case["hc"])
+    if case.get("chdr") is not None and not (header_ok(case["chdr"]) and len(case["chdr"]) < 6000):
+        return False
+    return (bool(_TOKEN.fullmatch(case["m"])) and cookie_wire_safe(case["cookie"]) and header_ok(case["hx"]) and header_ok(case["hc"])
             and sum(len(v) for _, v in case["fields"]) < 3000 and len(case["cookie"] or "") < 6000)
 
 
@@ -233,7 +260,9 @@ def run_wire(case):
     st = _setup()
     uri, body = _uri_body(case)
     lines = ["%s %s HTTP/1.1" % (case["m"], uri), "Host: localhost"]
-    if case["cookie"] is not None:
+    if case.get("chdr") is not None:
+        lines.append("Cookie: " + case["chdr"])
+    elif case["cookie"] is not None:
         lines.append("Cookie: _xsrf=" + case["cookie"])
     if case["hx"] is not None:
         lines.append("X-XSRFToken: " + case["hx"])
@@ -247,7 +276,7 @@ def run_wire(case):
     _arm(case)
 
     async def go():
-        k = (case["on"], case["ov"])
+        k = (case["on"], case["ov"], tuple(sup_of(case)))
         if k not in st["srv"]:
             st["srv"][k] = HTTPServer(_app(*k))
         s = FakeIOStream()
@@ -295,8 +324,11 @@ def _gopt(s):
 
 
 def coq_input(case):
-    return "(mkreq %s %s %s %s %s %s %s %s %s %s)" % (
-        G.gbool(case["on"]), case["m"], G.gn(case["ov"]), _gopt(case["cookie"]),
+    return "(%s, mkreq %s %s %s %s %s %s %s %s %s %s %s)" % (
+        _gopt(case.get("chdr")),
+        G.gbool(case["on"]), _gstr(case["m"]),
+        "default_supported" if case.get("sup") is None else G.glist([_gstr(m) for m in case["sup"]], "str"),
+        G.gn(case["ov"]), _gopt(case["cookie"]),
         G.glist([_gstr(v) for v in model_fields(case)], "str"), _gopt(case["hx"]), _gopt(case["hc"]),
         G.gbytes(case["rnd"].encode("latin-1")), G.gbytes(case["mask"].encode("latin-1")), G.gz(case["now"]))
 
@@ -355,8 +387,32 @@ def ref_input_token(case):
     return f or case["hx"] or case["hc"]
 
 
+_OCT = re.compile(r"\\(?:([0-3][0-7][0-7])|(.))")
+
+
+def ref_cookie_value(hdr):
+    """value of the cookie named _xsrf in a Cookie header, browser style (Django 1.9 algorithm, as documented for
+    httputil.parse_cookie): split on ';', name/value at the first '=', both stripped, later cookies win, a value in
+    double quotes is unquoted with \\ooo and \\c escapes"""
+    found = None
+    for chunk in hdr.split(";"):
+        name, eq, val = chunk.partition("=")
+        if not eq:
+            name, val = "", chunk
+        name, val = name.strip(), val.strip()
+        if name == "_xsrf":
+            if len(val) >= 2 and val[0] == val[-1] == '"':
+                val = _OCT.sub(lambda m: chr(int(m.group(1), 8)) if m.group(1) else m.group(2), val[1:-1])
+            found = val
+    return found
+
+
+def cookie_of(case):
+    return case["cookie"] if case.get("chdr") is None else ref_cookie_value(case["chdr"])
+
+
 def ref_expected_secret(case):
-    c = case["cookie"]
+    c = cookie_of(case)
     s = ref_secret(c) if c else None
     fresh = not s                 # absent, undecodable, or an empty secret (which no token can ever match)
     return (case["rnd"].encode("latin-1") if fresh else s), fresh
@@ -366,6 +422,8 @@ def py_check(case, o):
     if not (isinstance(o, list) and len(o) == 4 and not isinstance(o[0], G.Tag)):
         return False
     status, ran, token, sc = o
+    if case["m"] not in sup_of(case):                     # a verb the handler does not declare
+        return status == 405 and ran is False and token is None and sc is None
     expected, fresh = ref_expected_secret(case)
     gate = case["on"] and case["m"] not in SAFE
     t = ref_input_token(case)
@@ -398,14 +456,16 @@ DEF_MASK = b"\x11\x22\x33\x44"
 DEF_NOW = 1700000000
 
 
-def mk(m="POST", cookie=None, fields=(), hx=None, hc=None, on=True, ov=2, rnd=DEF_RND, mask=DEF_MASK, now=DEF_NOW):
+def mk(m="POST", cookie=None, fields=(), hx=None, hc=None, on=True, ov=2, rnd=DEF_RND, mask=DEF_MASK, now=DEF_NOW, sup=None, chdr=None):
+    if chdr is not None:
+        assert cookie is None and header_ok(chdr), chdr
     fields = [[c, v] for c, v in fields]
     fields = [f for f in fields if f[0] == "q"] + [f for f in fields if f[0] != "q"]
     if not header_ok(hx):
         fields, hx = fields + [["b", hx]], None
     if not header_ok(hc):
         fields, hc = fields + [["b", hc]], None
-    return {"on": bool(on), "m": m, "ov": ov, "cookie": cookie, "fields": fields, "hx": hx, "hc": hc,
+    return {"on": bool(on), "m": m, "sup": sup, "ov": ov, "chdr": chdr, "cookie": cookie, "fields": fields, "hx": hx, "hc": hc,
             "rnd": bytes(rnd).decode("latin-1"), "mask": bytes(mask).decode("latin-1"), "now": now}
 
 
@@ -606,8 +666,8 @@ def structured(rng, n):
             if rng.random() < 0.5:
                 kw["rnd"] = rbytes(rng, 16)
                 tok = rtoken(rng, kw["rnd"])                         # the attacker "guessed" the fresh secret: ties the fresh-secret branch
-        m = rng.choice(["POST", "POST", "POST", "PUT", "DELETE", "PATCH", "GET", "HEAD", "OPTIONS"])
-        kw.update(m=m, cookie=cookie, on=rng.random() < 0.93, ov=rng.choice([1, 2, 2, 2, 3 if rng.random() < 0.3 else 2]),
+        m, sup = rmethod(rng)
+        kw.update(m=m, sup=sup, cookie=cookie, on=rng.random() < 0.93, ov=rng.choice([1, 2, 2, 2, 3 if rng.random() < 0.3 else 2]),
                   mask=rbytes(rng, 4), now=rng.choice([DEF_NOW, 0, 1, rng.randrange(2 ** 37)]))
         kw.setdefault("rnd", rbytes(rng, 16))
         r = rng.random()
@@ -623,6 +683,106 @@ def structured(rng, n):
             rng.shuffle(vs)
             c = mk(fields=[(rng.choice("qb"), v) for v in vs], **kw)
         out.append(c)
+    return out
+
+
+EXTRA_VERBS = ["PROPFIND", "MKCOL", "REPORT", "LOCK", "PURGE", "COPY", "M-SEARCH", "X", "get", "Get", "post", "Head", "options",
+               "GETT", "GE", "OPTION", "HEADS", "TRACE", "CONNECT", "Z!#$%&'*+.^_`|~9"]
+
+
+def method_cases(rng):
+    """verbs declared through SUPPORTED_METHODS (the documented way to add e.g. WebDAV methods), near-misses of the
+    exempt GET/HEAD/OPTIONS (comparisons are case-sensitive), and verbs the handler does not declare (405)"""
+    out = []
+    sec = rbytes(rng, 16)
+    ck = ref_issue(2, rbytes(rng, 4), sec, 1500000000)
+    other = ref_issue(2, rbytes(rng, 4), rbytes(rng, 16), 1500000000)
+    for v in EXTRA_VERBS + ["GET", "HEAD", "OPTIONS", "POST", "DELETE", "GET ", "P\u00d6ST"]:
+        sup = DEFAULT_SUP + ([v] if v not in DEFAULT_SUP else [])
+        good = ref_issue(rng.choice([1, 2]), rbytes(rng, 4), sec, 7)
+        out += [mk(m=v, sup=sup), mk(m=v, sup=sup, cookie=ck), carry(other, 2, m=v, sup=sup, cookie=ck),
+                carry("2|zz|zz|zz", 2, m=v, sup=sup, cookie=ck), carry(good, rng.randrange(4), m=v, sup=sup, cookie=ck),
+                carry(good, 2, m=v, sup=sup, cookie=ck, on=False), mk(m=v, sup=[v], cookie=ck),
+                carry(good, 3, m=v, sup=["GET", v], cookie=ck)]
+        if v not in DEFAULT_SUP:
+            out += [mk(m=v, cookie=ck), carry(good, 2, m=v, cookie=ck), carry(good, 2, m=v, cookie=ck, on=False),
+                    carry(good, 1, m=v, sup=[x for x in EXTRA_VERBS if x != v][:3], cookie=ck)]     # not declared: 405
+    out += [carry(ref_issue(2, rbytes(rng, 4), sec, 7), 2, m="POST", sup=[], cookie=ck), mk(m="GET", sup=[], cookie=ck),
+            mk(m="GET", sup=["POST"], cookie=ck), carry(ref_issue(1, b"", sec, 7), 1, m="PUT", sup=["GET", "HEAD", "POST"], cookie=ck)]
+    return out
+
+
+def rmethod(rng):
+    r = rng.random()
+    if r < 0.62:
+        return rng.choice(["POST", "POST", "POST", "PUT", "DELETE", "PATCH", "GET", "HEAD", "OPTIONS"]), None
+    v = rng.choice(EXTRA_VERBS)
+    if r < 0.90:
+        return v, DEFAULT_SUP + [v]
+    if r < 0.95:
+        return v, rng.sample(EXTRA_VERBS, 3) + [v]
+    return v, rng.choice([None, ["GET", "POST"], rng.sample(EXTRA_VERBS, 2)])      # mostly undeclared: 405
+
+
+def cq(v):
+    """v as a quoted cookie value: random mix of plain characters, \\c and \\ooo escapes"""
+    import random as _r
+    rr = _r.Random(v)
+    out = []
+    for ch in v:
+        k = rr.random()
+        if ord(ch) < 256 and (k < 0.3 or ch in '";\\' or not header_ok(ch)):
+            out.append("\\%03o" % ord(ch))
+        elif k < 0.5:
+            out.append("\\" + ch)
+        else:
+            out.append(ch)
+    return '"' + "".join(out) + '"'
+
+
+def cookie_header_cases(rng, n_random):
+    """the cookie arrives inside a real Cookie header (parse_cookie / _unquote_cookie / get_cookie are exercised):
+    GET reveals the secret the server took from the header through the token it issues, POST carries a matching token"""
+    out = []
+    sec = rbytes(rng, 16)
+    v2 = ref_issue(2, rbytes(rng, 4), sec, 1500000000)
+    v1 = ref_issue(1, b"", sec, 0)
+    w = ref_issue(2, rbytes(rng, 4), rbytes(rng, 16), 1500000001)
+    tok = ref_issue(2, rbytes(rng, 4), sec, 3)
+    forms = []
+    for V in (v2, v1, "xoxo"):
+        forms += ["_xsrf=" + V, "a=b; _xsrf=" + V, "_xsrf=" + V + "; c=d", "_xsrf=" + w + "; _xsrf=" + V, "_xsrf=" + V + "; _xsrf=" + w,
+                  "x=1;  _xsrf \t=  " + V + "  ;y", '_xsrf="' + V + '"', "_xsrf=" + cq(V), "a=1;_xsrf=" + cq(V) + ";b", '_xsrf="' + V, "_xsrf=" + V + '"',
+                  "_xsrf;" + V, "=" + V, "_XSRF=" + V, "_xsrf=" + V + ";_xsrf", "_xsrf=" + V + "; =", "_xsrf=" + V + ";;", "_xsrf\xa0=\x85" + V + "\xa0",
+                  "xsrf=" + V, "_xsrf=" + V + ",_xsrf=" + w, 'a="x;_xsrf=' + V + '"', "_xsrf=" + V + "; _xsrf=", "_xsrf =" + V + "; _xsrf", "__xsrf=" + V,
+                  "_xsrf=" + V + "; a b=1; \xe9=2; path=/", "_xsrf==" + V, "_xsrf=" + V + "=", V, "a;b;_xsrf=" + V + ";c"]
+    forms += ["_xsrf", "_xsrf=", '_xsrf="', '_xsrf=""', '_xsrf="\\"', '_xsrf="a\\"', '_xsrf="\\400"', '_xsrf="\\3777"', '_xsrf="\\061\\62\\0633"',
+              '_xsrf="\\\\\\""', '_xsrf="""', '_xsrf="\\477"', '_xsrf="\\777"', '_xsrf="\\378"', 'x=1; _xsrf=""', '_xsrf=""; y', '_xsrf="a"b"', "", ";", "=", ";=;", "_xsrf=1", '_xsrf="1"', '_xsrf="\\061"', "_xsrf=\"1", "_xsrf=1\""]
+    for f in forms:
+        if not header_ok(f):
+            continue
+        out.append(mk(m="GET", chdr=f, rnd=rbytes(rng, 16), mask=rbytes(rng, 4)))
+        out.append(carry(tok, rng.choice([1, 2]), chdr=f, rnd=rbytes(rng, 16)))
+    alpha = ["_xsrf", "=", ";", '"', "\\", "1", " ", "a", "\\061", "x"]
+    for _ in range(n_random):
+        f = "".join(rng.choice(alpha) for _ in range(rng.randrange(1, 9)))
+        if header_ok(f):
+            out.append(mk(m="GET", chdr=f, rnd=rbytes(rng, 16)))
+            out.append(carry("31", 1, chdr=f))                      # matches a cookie whose value is "1"
+    return out
+
+
+def cookie_header_scope(alpha, maxlen, post_maxlen):
+    """every Cookie header made of up to `maxlen` of the pieces in `alpha`: GET (the issued token reveals the secret the
+    server read from it), and up to `post_maxlen` also a POST whose token matches the cookie value "1"""
+    out = []
+    for n in range(maxlen + 1):
+        for t in itertools.product(alpha, repeat=n):
+            f = "".join(t)
+            if header_ok(f):
+                out.append(mk(m="GET", chdr=f))
+                if n <= post_maxlen:
+                    out.append(carry("31", 1, chdr=f))
     return out
 
 
@@ -663,13 +823,17 @@ def small_scope(alpha, maxlen, cookie_maxlen=None):
 def gen_cases(rng, tier):
     out = []
     out += near_miss_cases(rng)
+    out += method_cases(rng)
+    out += cookie_header_cases(rng, 60 if tier == "quick" else 300)
+    if tier != "quick":
+        out += cookie_header_scope(["_xsrf", "=", ";", '"', "\\", "1", "\\061"], 4, 3)
     if tier == "quick":
-        out += structured(rng, 500)
+        out += structured(rng, 400)
         out += small_scope(["2", "|", "a"], 4)
-        out += rng.sample(nd_cases(), 120)
+        out += rng.sample(nd_cases(), 100)
         out += digit_limit_cases()[:4]
     else:
-        out += structured(rng, 3000)
+        out += structured(rng, 2000)
         out += small_scope(["2", "|", "a", "0", " "], 5, 4)
         out += small_scope(["1", "|", "g", "A", "_", "\u0663", "\n"], 3)
         out += nd_cases()
@@ -681,21 +845,24 @@ def gen_cases(rng, tier):
 
 def nontrivial(case, o):
     gate = case["on"] and case["m"] not in SAFE
-    if not gate and not case["cookie"]:
+    if not gate and not case["cookie"] and not case.get("chdr"):
         return None
-    return (case["m"], case["on"], case["ov"], case["cookie"], repr(case["fields"]), case["hx"], case["hc"])
+    return (case["m"], repr(case.get("sup")), case["on"], case["ov"], case.get("chdr"), case["cookie"], repr(case["fields"]), case["hx"], case["hc"])
 
 
 def classify(case, o):
     gate = case["on"] and case["m"] not in SAFE
     yield "gate=" + ("on" if gate else "off")
+    yield "method=" + ("exempt" if case["m"] in SAFE else "standard" if case["m"] in DEFAULT_SUP else "custom")
+    yield "declared=%s" % (case["m"] in sup_of(case))
     if isinstance(o, list) and len(o) == 4:
         yield "status=%s" % (o[0],)
         yield "ran=%s" % (o[1],)
         yield "set_cookie=%s" % (o[3] is not None,)
     else:
         yield "odd-observable"
-    c = case["cookie"]
+    yield "cookie_header=%s" % (case.get("chdr") is not None)
+    c = cookie_of(case)
     yield "cookie=" + ("absent" if c is None else "empty" if c == "" else "v2" if c.startswith("2|") else "other")
     yield "cookie_decodes=%s" % (bool(c) and ref_secret(c) is not None)
     t = ref_input_token(case)
@@ -714,6 +881,8 @@ def signature(case, o):
 
 
 def shrink(case):
+    if case.get("sup") is not None and case["m"] in case["sup"] and len(case["sup"]) > 1:
+        yield dict(case, sup=[case["m"]])
     for key in ("hx", "hc"):
         if case[key] is not None:
             yield dict(case, **{key: None})
@@ -728,6 +897,11 @@ def shrink(case):
     if c:
         for w in (c[: len(c) // 2], c[1:], c[:-1]):
             yield dict(case, cookie=w)
+    c = case.get("chdr")
+    if c:
+        for w in (c[: len(c) // 2], c[1:], c[:-1], c[len(c) // 2:]):
+            if header_ok(w):
+                yield dict(case, chdr=w)
     for key in ("hx", "hc"):
         v = case[key]
         if v:
